@@ -5,6 +5,7 @@ package kernel
 import (
 	"fmt"
 	"os"
+	"strings"
 	"testing"
 	"time"
 
@@ -18,14 +19,43 @@ import (
 // A workload is pure data so that it can be replayed from genesis for every
 // crash point.
 type vpCWStep struct {
-	Kind     string // deposit | transfer | custodian | batch
-	Chain    int
-	Asset    int // 0 XIN, 1 BTC
+	Kind     string // deposit | transfer | custodian | batch | fund | pledge | accept | remove
+	Chain    int    // requested chain (0..6 genesis, 7 the joining node); remapped when not eligible at the step's time
+	Asset    int    // 0 XIN, 1 BTC
 	Owner    int
-	Prev     int // index of the deposit step spent by a transfer / funding a custodian update
+	Prev     int // index of the deposit step spent by a transfer / funding a custodian update or a pledge; for accept: the pledge step
 	NewRound bool
 	Ext      int
 	Dt       uint64
+	Jump     uint64 // whole hours the workload clock advances before the step (membership steps additionally move into their legal hour window)
+	Self     int    // on step 0 only: which node the process under test is (0 = genesis member 0, vpCWJoin = the joining node itself)
+}
+
+func vpCWSelfOf(steps []vpCWStep) int {
+	if len(steps) > 0 {
+		return steps[0].Self
+	}
+	return 0
+}
+
+const vpCWHour = uint64(time.Hour)
+const vpCWJoin = 7 // index of the joining node in net.Signers / net.NodeIds / net.Payees
+
+func vpCWIsCons(kind string) bool {
+	switch kind {
+	case "custodian", "pledge", "accept", "remove":
+		return true
+	}
+	return false
+}
+
+// vpCWNewNet is the generated 7-node network plus the keys of one node that
+// may join later (registered so that it can co-sign once accepted).
+func vpCWNewNet(tag string) *vpKNet {
+	net := vpKNewNet(7, tag, 4)
+	net.AddSigner(vpKNodeAddr(vpKSeed(tag, "join-signer")))
+	net.Payees = append(net.Payees, vpKNodeAddr(vpKSeed(tag, "join-payee")))
+	return net
 }
 
 type vpCWRun struct {
@@ -40,69 +70,152 @@ type vpCWRun struct {
 	seq       int
 	chainOf   map[int]int
 	done      map[int]bool
+	joinSigns map[int]bool // steps whose certificate the joined node co-signed
 }
 
 func vpCWBase(net *vpKNet) uint64 {
-	// day 2, hour 12 after the epoch: outside mint/custodian-forbidden hours
+	// day 2, hour 12 after the epoch: outside mint/custodian-forbidden hours,
+	// a legal pledge hour, and years before the wall clock
 	return net.Epoch + uint64(36*time.Hour)
 }
 
-// vpCWDraw draws a workload of n steps over >= 3 chains.
-func vpCWDraw(t *rapid.T, nodes int) []vpCWStep {
-	n := rapid.IntRange(6, 16).Draw(t, "steps")
-	var steps []vpCWStep
-	var deposits, xinDeposits []int
-	spent := map[int]bool{}
-	cons := 0
-	for i := 0; i < n; i++ {
-		st := vpCWStep{Chain: rapid.IntRange(0, nodes-1).Draw(t, "chain"), Owner: rapid.IntRange(0, 3).Draw(t, "owner"),
-			NewRound: rapid.IntRange(0, 3).Draw(t, "newround") == 0, Ext: rapid.IntRange(0, nodes-1).Draw(t, "ext"),
-			Dt: uint64(rapid.IntRange(1, 900).Draw(t, "dt_ms")) * uint64(time.Millisecond)}
-		kind := rapid.IntRange(0, 9).Draw(t, "kind")
-		free := func(list []int) int {
-			for _, d := range list {
-				if !spent[d] {
-					return d
-				}
-			}
-			return -1
-		}
-		switch {
-		case kind <= 3 || len(deposits) == 0:
-			st.Kind = "deposit"
-			st.Asset = rapid.IntRange(0, 1).Draw(t, "asset")
-		case kind <= 5:
-			if d := free(deposits); d >= 0 {
-				st.Kind, st.Prev = "transfer", d
-				spent[d] = true
-			} else {
-				st.Kind = "deposit"
-			}
-		case kind <= 7 && cons < 3:
-			if d := free(xinDeposits); d >= 0 {
-				st.Kind, st.Prev = "custodian", d
-				spent[d] = true
-				cons++
-			} else {
-				st.Kind, st.Asset = "deposit", 0
-			}
-		default:
-			st.Kind = "batch"
-			st.Asset = rapid.IntRange(0, 1).Draw(t, "asset")
-		}
-		if st.Kind == "deposit" {
-			deposits = append(deposits, i)
-			if st.Asset == 0 {
-				xinDeposits = append(xinDeposits, i)
-			}
-		}
-		steps = append(steps, st)
-	}
-	return steps
+type vpCWGen struct {
+	t           *rapid.T
+	steps       []vpCWStep
+	deposits    []int
+	xinDeposits []int
+	spent       map[int]bool
+	cons        int
 }
 
+func (g *vpCWGen) base(joinBias bool) vpCWStep {
+	t := g.t
+	st := vpCWStep{Chain: rapid.IntRange(0, vpCWJoin).Draw(t, "chain"), Owner: rapid.IntRange(0, 3).Draw(t, "owner"),
+		NewRound: rapid.IntRange(0, 3).Draw(t, "newround") == 0, Ext: rapid.IntRange(0, 6).Draw(t, "ext"),
+		Dt: uint64(rapid.IntRange(1, 900).Draw(t, "dt_ms")) * uint64(time.Millisecond)}
+	if joinBias && rapid.IntRange(0, 1).Draw(t, "on_joiner") == 0 {
+		st.Chain = vpCWJoin
+	}
+	return st
+}
+
+func (g *vpCWGen) free(list []int) int {
+	for _, d := range list {
+		if !g.spent[d] {
+			return d
+		}
+	}
+	return -1
+}
+
+// ordinary appends one step of the pre-existing kinds.
+func (g *vpCWGen) ordinary(joinBias bool, jump uint64) {
+	t := g.t
+	i := len(g.steps)
+	st := g.base(joinBias)
+	st.Jump = jump
+	kind := rapid.IntRange(0, 9).Draw(t, "kind")
+	switch {
+	case kind <= 3 || len(g.deposits) == 0:
+		st.Kind = "deposit"
+		st.Asset = rapid.IntRange(0, 1).Draw(t, "asset")
+	case kind <= 5:
+		if d := g.free(g.deposits); d >= 0 {
+			st.Kind, st.Prev = "transfer", d
+			g.spent[d] = true
+		} else {
+			st.Kind = "deposit"
+		}
+	case kind <= 7 && g.cons < 3:
+		if d := g.free(g.xinDeposits); d >= 0 {
+			st.Kind, st.Prev = "custodian", d
+			g.spent[d] = true
+			g.cons++
+		} else {
+			st.Kind, st.Asset = "deposit", 0
+		}
+	default:
+		st.Kind = "batch"
+		st.Asset = rapid.IntRange(0, 1).Draw(t, "asset")
+	}
+	if st.Kind == "deposit" {
+		g.deposits = append(g.deposits, i)
+		if st.Asset == 0 {
+			g.xinDeposits = append(g.xinDeposits, i)
+		}
+	}
+	g.steps = append(g.steps, st)
+}
+
+func (g *vpCWGen) special(kind string, prev int) int {
+	st := g.base(false)
+	st.Kind, st.Prev, st.Asset = kind, prev, 0
+	g.steps = append(g.steps, st)
+	return len(g.steps) - 1
+}
+
+// vpCWDraw draws a workload over >= 3 chains. Mode 0 is the plain workload
+// (6..16 steps); the other modes embed the membership life cycle: a funding
+// deposit and the pledge of an 8th node, optionally its acceptance (round 0 of
+// the new chain, >= 12h later in the accept window), optionally steps after the
+// new node matured (>= 12h after acceptance; some on the new chain, the new
+// node co-signing) and optionally the removal of the oldest node in the next
+// window. mode < 0 draws the mode.
+func vpCWDrawMode(t *rapid.T, mode int) []vpCWStep {
+	g := &vpCWGen{t: t, spent: map[int]bool{}}
+	if mode < 0 {
+		mode = rapid.SampledFrom([]int{0, 0, 1, 2, 2, 3, 3, 4, 4, 4}).Draw(t, "mode")
+	}
+	if mode == 0 {
+		n := rapid.IntRange(6, 16).Draw(t, "steps")
+		for i := 0; i < n; i++ {
+			g.ordinary(false, 0)
+		}
+		return g.steps
+	}
+	self := rapid.SampledFrom([]int{0, 0, vpCWJoin}).Draw(t, "self")
+	a := rapid.IntRange(2, 5).Draw(t, "steps_before_pledge")
+	fundAt := rapid.IntRange(0, a).Draw(t, "fund_at")
+	fund := -1
+	for i := 0; i <= a; i++ {
+		if i == fundAt {
+			fund = g.special("fund", 0)
+			g.spent[fund] = true
+		}
+		if i < a {
+			g.ordinary(false, 0)
+		}
+	}
+	pledge := g.special("pledge", fund)
+	for i, b := 0, rapid.IntRange(0, 3).Draw(t, "steps_while_pledging"); i < b; i++ {
+		g.ordinary(false, 0)
+	}
+	if mode >= 2 {
+		g.special("accept", pledge)
+		for i, c := 0, rapid.IntRange(0, 3).Draw(t, "steps_after_accept"); i < c; i++ {
+			g.ordinary(false, 0)
+		}
+	}
+	if mode >= 3 {
+		g.ordinary(true, uint64(rapid.IntRange(12, 14).Draw(t, "mature_jump_h")))
+		for i, d := 0, rapid.IntRange(1, 3).Draw(t, "steps_mature"); i < d; i++ {
+			g.ordinary(true, 0)
+		}
+	}
+	if mode >= 4 {
+		g.special("remove", 0)
+		for i, e := 0, rapid.IntRange(0, 2).Draw(t, "steps_after_remove"); i < e; i++ {
+			g.ordinary(true, 0)
+		}
+	}
+	g.steps[0].Self = self
+	return g.steps
+}
+
+func vpCWDraw(t *rapid.T, nodes int) []vpCWStep { return vpCWDrawMode(t, -1) }
+
 func vpCWNew(k *vpKNode, steps []vpCWStep) *vpCWRun {
-	r := &vpCWRun{k: k, net: k.Net, steps: steps, txOf: map[int][]*common.VersionedTransaction{}, snapOf: map[int]*common.Snapshot{}, chainOf: map[int]int{}, done: map[int]bool{}}
+	r := &vpCWRun{k: k, net: k.Net, steps: steps, txOf: map[int][]*common.VersionedTransaction{}, snapOf: map[int]*common.Snapshot{}, chainOf: map[int]int{}, done: map[int]bool{}, joinSigns: map[int]bool{}}
 	r.clock = vpCWBase(k.Net)
 	last, err := k.Node.persistStore.ReadLastConsensusSnapshot()
 	if err != nil || last == nil {
@@ -112,7 +225,81 @@ func vpCWNew(k *vpKNode, steps []vpCWStep) *vpCWRun {
 	return r
 }
 
-// prepare builds (deterministically) the transactions of step i.
+func (r *vpCWRun) hourOf(ts uint64) int { return int((ts - r.net.Epoch) / vpCWHour % 24) }
+
+// advance moves ts forward (never back) to the first instant >= min whose hour
+// of the network day satisfies ok.
+func (r *vpCWRun) advance(ts, min uint64, ok func(h int) bool) uint64 {
+	if ts < min {
+		ts = min
+	}
+	for !ok(r.hourOf(ts)) {
+		ts = r.net.Epoch + ((ts-r.net.Epoch)/vpCWHour+1)*vpCWHour + ts%1000003
+	}
+	return ts
+}
+
+// lastMembership is the time of the latest membership record in the ledger.
+func (r *vpCWRun) lastMembership() uint64 {
+	nodes := r.k.Node.persistStore.ReadAllNodes(^uint64(0)>>1, true)
+	return nodes[len(nodes)-1].Timestamp
+}
+
+func (r *vpCWRun) indexOf(id crypto.Hash) int {
+	for ci, x := range r.net.NodeIds {
+		if x == id {
+			return ci
+		}
+	}
+	panic(fmt.Sprint("unknown node id ", id))
+}
+
+// eligible: the chain's node is a member of the signer set at ts (accepted,
+// matured when it is not a genesis node, not the predicted removal candidate
+// inside the operation window) and the chain has a round to append to. This is
+// what checkActionSanity demands from a proposer.
+func (r *vpCWRun) eligible(ci int, ts uint64) bool {
+	chain := r.k.Node.getOrCreateChain(r.net.NodeIds[ci])
+	if chain == nil || chain.State == nil {
+		return false
+	}
+	ids, _ := chain.ConsensusKeys(1, ts)
+	for _, id := range ids {
+		if id == chain.ChainId {
+			return true
+		}
+	}
+	return false
+}
+
+func (r *vpCWRun) pickChain(want int, ts uint64) int {
+	n := len(r.net.NodeIds)
+	for j := 0; j < n; j++ {
+		if ci := (want + j) % n; r.eligible(ci, ts) {
+			return ci
+		}
+	}
+	panic("no eligible chain")
+}
+
+// pickExt: an external reference to a genesis chain whose node is still a
+// member at ts (the new node's chain is too young to be referenced).
+func (r *vpCWRun) pickExt(want, self int, ts uint64) int {
+	for j := 0; j < 7; j++ {
+		ci := (want + j) % 7
+		if ci == self {
+			continue
+		}
+		if r.k.Node.getAcceptedOrPledgingNode(r.net.NodeIds[ci], ts) != nil {
+			return ci
+		}
+	}
+	panic("no external chain")
+}
+
+// prepare builds (deterministically) the transactions of step i; consensus
+// steps are built against the run's last consensus transaction, the removal
+// against the membership at the run's clock.
 func (r *vpCWRun) prepare(i int) []*common.VersionedTransaction {
 	if txs, ok := r.txOf[i]; ok {
 		return txs
@@ -129,6 +316,8 @@ func (r *vpCWRun) prepare(i int) []*common.VersionedTransaction {
 	switch st.Kind {
 	case "deposit":
 		txs = append(txs, dep(st.Asset, st.Owner, 0))
+	case "fund":
+		txs = append(txs, r.net.XINDeposit(common.KernelNodePledgeAmount, st.Owner, fmt.Sprintf("0xw%d-fund", i), i))
 	case "batch":
 		txs = append(txs, dep(st.Asset, st.Owner, 0), dep(1-st.Asset, (st.Owner+1)%4, 1))
 	case "transfer":
@@ -137,6 +326,20 @@ func (r *vpCWRun) prepare(i int) []*common.VersionedTransaction {
 	case "custodian":
 		prev := r.prepare(st.Prev)[0]
 		txs = append(txs, r.net.CustodianUpdate(prev, r.steps[st.Prev].Owner, r.lastCons, i))
+	case "pledge":
+		prev := r.prepare(st.Prev)[0]
+		txs = append(txs, r.net.NodePledge(prev, r.steps[st.Prev].Owner, r.net.Signers[vpCWJoin], r.net.Payees[vpCWJoin], r.lastCons))
+	case "accept":
+		pledge := r.prepare(st.Prev)[0]
+		txs = append(txs, r.net.NodeAccept(pledge, r.net.Signers[vpCWJoin], r.lastCons))
+	case "remove":
+		acc := r.k.Node.NodesListWithoutState(r.clock, true)
+		cand := acc[0] // the oldest accepted node
+		accept, _, err := r.k.Node.persistStore.ReadTransaction(cand.Transaction)
+		if err != nil || accept == nil {
+			panic(fmt.Sprint("accept transaction of the removal candidate ", err))
+		}
+		txs = append(txs, r.net.NodeRemove(accept, cand.Signer, cand.Payee, r.lastCons))
 	}
 	r.txOf[i] = txs
 	return txs
@@ -149,24 +352,55 @@ func (r *vpCWRun) snapshot(i int) *common.Snapshot {
 		return s
 	}
 	st := r.steps[i]
-	txs := r.prepare(i)
-	r.clock += st.Dt
-	chainIdx := st.Chain
-	if st.Kind == "custodian" {
-		eid := r.k.Node.electSnapshotNode(common.TransactionTypeCustodianUpdateNodes, r.clock)
-		for ci, id := range r.net.NodeIds {
-			if id == eid {
-				chainIdx = ci
-			}
+	node := r.k.Node
+	r.clock += st.Jump*vpCWHour + st.Dt
+	window := func(h int) bool {
+		return h >= config.KernelNodeAcceptTimeBegin && h <= config.KernelNodeAcceptTimeEnd
+	}
+	half := uint64(config.KernelNodePledgePeriodMinimum)
+	op := byte(0)
+	switch st.Kind {
+	case "custodian":
+		op = common.TransactionTypeCustodianUpdateNodes
+		r.clock = r.advance(r.clock, 0, func(h int) bool { return h < config.KernelMintTimeBegin-1 || h > config.KernelMintTimeEnd+1 })
+	case "pledge":
+		op = common.TransactionTypeNodePledge
+		r.clock = r.advance(r.clock, r.lastMembership()+half+1, func(h int) bool {
+			return !window(h) && (h < config.KernelMintTimeBegin || h > config.KernelMintTimeEnd)
+		})
+	case "accept":
+		p := node.PledgingNode(r.clock)
+		if p == nil {
+			panic("accept step without a pledging node")
 		}
+		r.clock = r.advance(r.clock, p.Timestamp+uint64(config.KernelNodeAcceptPeriodMinimum)+1, window)
+	case "remove":
+		op = common.TransactionTypeNodeRemove
+		r.clock = r.advance(r.clock, r.lastMembership()+half+1, window)
+	}
+	txs := r.prepare(i)
+	var hs []crypto.Hash
+	for _, tx := range txs {
+		hs = append(hs, tx.PayloadHash())
+	}
+	extra, rot := int(r.clock%3), int(r.clock/3%11)
+	if st.Kind == "accept" {
+		r.chainOf[i] = vpCWJoin
+		s := r.k.InitialSnapshot(r.net.NodeIds[vpCWJoin], hs[0], r.clock)
+		r.k.CertifyRot(s, extra+int(r.clock/5%2), rot)
+		r.snapOf[i] = s
+		return s
+	}
+	chainIdx := 0
+	if op != 0 {
+		chainIdx = r.indexOf(node.electSnapshotNode(op, r.clock))
+	} else {
+		chainIdx = r.pickChain(st.Chain, r.clock)
 	}
 	r.chainOf[i] = chainIdx
-	chain := r.k.Node.getOrCreateChain(r.net.NodeIds[chainIdx])
+	chain := node.getOrCreateChain(r.net.NodeIds[chainIdx])
 	newRound := st.NewRound
-	ext := st.Ext
-	if ext == chainIdx {
-		ext = (ext + 1) % len(r.net.NodeIds)
-	}
+	ext := r.pickExt(st.Ext, chainIdx, r.clock)
 	cache := chain.State.CacheRound
 	if len(cache.Snapshots) > 0 {
 		start, _ := cache.Gap()
@@ -176,14 +410,25 @@ func (r *vpCWRun) snapshot(i int) *common.Snapshot {
 	} else {
 		newRound = false
 	}
-	var hs []crypto.Hash
-	for _, tx := range txs {
-		hs = append(hs, tx.PayloadHash())
-	}
 	s := r.k.NextSnapshot(chainIdx, hs, r.clock, newRound, ext)
-	r.k.Certify(s, int(r.clock%3))
+	r.k.CertifyRot(s, extra, rot)
+	_, pubs := chain.ConsensusKeys(s.RoundNumber, s.Timestamp)
+	for pi, p := range pubs {
+		if *p == r.net.Signers[vpCWJoin].PublicSpendKey && s.Signature.Mask&(1<<uint(pi)) != 0 {
+			r.joinSigns[i] = true
+		}
+	}
 	r.snapOf[i] = s
 	return s
+}
+
+// applied records the effects of a finalized step on the run's view.
+func (r *vpCWRun) applied(i int, s *common.Snapshot) {
+	if vpCWIsCons(r.steps[i].Kind) {
+		r.lastCons = r.prepare(i)[0].PayloadHash()
+		r.consSnaps = append(r.consSnaps, s)
+	}
+	r.done[i] = true
 }
 
 // exec runs step i to completion; a crash injected by the hook surfaces as a
@@ -197,14 +442,16 @@ func (r *vpCWRun) exec(i int) error {
 	if err != nil {
 		return fmt.Errorf("step %d (%s): %v", i, r.steps[i].Kind, err)
 	}
+	if r.steps[i].Kind == "accept" {
+		// the accept path does not report m.finalized; judge by its effects
+		back, _ := r.k.Node.persistStore.ReadSnapshot(s.Hash)
+		chain := r.k.Node.getOrCreateChain(s.NodeId)
+		fin = back != nil && chain != nil && chain.State != nil && chain.State.CacheRound.Number == 1 && chain.State.FinalRound.Number == 0
+	}
 	if !fin {
 		return fmt.Errorf("step %d (%s) snapshot %s not finalized by the node", i, r.steps[i].Kind, s.Hash)
 	}
-	if r.steps[i].Kind == "custodian" {
-		r.lastCons = r.prepare(i)[0].PayloadHash()
-		r.consSnaps = append(r.consSnaps, s)
-	}
-	r.done[i] = true
+	r.applied(i, s)
 	return nil
 }
 
@@ -294,11 +541,18 @@ type vpCWOutcome struct {
 	Calls      int
 	Crashed    bool
 	CrashAt    string
+	CrashStep  int
+	CrashKind  string
 	ConsBefore int // consensus-class snapshots durably written before the cut
 	Finalized  int
+	Kinds      map[string]int // completed steps by kind before the cut
+	JoinSnaps  int            // ordinary snapshots finalized on the joined node's chain (before the cut or while continuing)
+	JoinSigned int            // certificates the joined node co-signed
+	Continued  int            // steps executed on the restarted node
 	Err22      error
 	Err21      error
 	Chains     int
+	Log        []string
 }
 
 // vpCWRunCut replays the workload from genesis, crashes at cut (nil = no
@@ -306,6 +560,8 @@ type vpCWOutcome struct {
 func vpCWRunCut(net *vpKNet, steps []vpCWStep, cut *vpCWCut) (out vpCWOutcome) {
 	dir := vpKTempDir("cw")
 	defer os.RemoveAll(dir)
+	out.Kinds = map[string]int{}
+	out.CrashStep = -1
 	var run *vpCWRun
 	armed := false
 	inNested := false
@@ -319,7 +575,8 @@ func vpCWRunCut(net *vpKNet, steps []vpCWStep, cut *vpCWCut) (out vpCWOutcome) {
 			if cut.Nested && phase == "before" && name != "WriteSnapshot" {
 				// what another chain's goroutine may do at this boundary
 				for j := cur + 1; j < len(steps); j++ {
-					if steps[j].Kind == "deposit" && run.snapOf[j] == nil && steps[j].Chain != run.chainOf[cur] {
+					if steps[j].Kind == "deposit" && steps[j].Jump == 0 && run.snapOf[j] == nil &&
+						run.pickChain(steps[j].Chain, run.clock+steps[j].Dt) != run.chainOf[cur] {
 						inNested = true
 						vpKCatch(func() { _ = run.exec(j) })
 						inNested = false
@@ -330,13 +587,27 @@ func vpCWRunCut(net *vpKNet, steps []vpCWStep, cut *vpCWCut) (out vpCWOutcome) {
 			panic(vpKCrash{K: k, Name: name, Phase: phase})
 		}
 	}
-	k, err := vpKStart(net, dir, 0, hook)
+	joinId := net.NodeIds[vpCWJoin]
+	account := func(r *vpCWRun, i int) {
+		s := r.snapOf[i]
+		if s == nil {
+			return
+		}
+		if s.NodeId == joinId && r.steps[i].Kind != "accept" {
+			out.JoinSnaps++
+		}
+		if r.joinSigns[i] {
+			out.JoinSigned++
+		}
+	}
+	k, err := vpKStart(net, dir, vpCWSelfOf(steps), hook)
 	if err != nil {
 		out.Err22 = fmt.Errorf("initial start: %v", err)
 		return
 	}
 	run = vpCWNew(k, steps)
 	k.Proxy.K = 0
+	k.Proxy.Log = nil
 	armed = true
 	chains := map[int]bool{}
 	for i := range steps {
@@ -346,6 +617,7 @@ func vpCWRunCut(net *vpKNet, steps []vpCWStep, cut *vpCWCut) (out vpCWOutcome) {
 		if p != nil {
 			if c, ok := p.(vpKCrash); ok {
 				out.Crashed = true
+				out.CrashStep, out.CrashKind = i, steps[i].Kind
 				out.CrashAt = fmt.Sprintf("%s/%s#%d in step %d (%s)", c.Name, c.Phase, c.K, i, steps[i].Kind)
 				break
 			}
@@ -359,14 +631,17 @@ func vpCWRunCut(net *vpKNet, steps []vpCWStep, cut *vpCWCut) (out vpCWOutcome) {
 			return
 		}
 		out.Finalized++
-		chains[steps[i].Chain] = true
+		out.Kinds[steps[i].Kind]++
+		chains[run.chainOf[i]] = true
+		account(run, i)
 	}
 	out.Chains = len(chains)
 	out.Calls = k.Proxy.K
+	out.Log = append([]string{}, k.Proxy.Log...)
 	written := k.Proxy.Written
 	// consensus-class snapshots whose WriteSnapshot returned before the cut
 	for i, st := range steps {
-		if st.Kind != "custodian" {
+		if !vpCWIsCons(st.Kind) {
 			continue
 		}
 		if s := run.snapOf[i]; s != nil {
@@ -384,7 +659,7 @@ func vpCWRunCut(net *vpKNet, steps []vpCWStep, cut *vpCWCut) (out vpCWOutcome) {
 	if cut.DropTmp {
 		os.RemoveAll(dir + "/cache")
 	}
-	k2, err := vpKStart(net, dir, 0, nil)
+	k2, err := vpKStart(net, dir, vpCWSelfOf(steps), nil)
 	if err != nil {
 		out.Err22 = fmt.Errorf("restart after crash at %s failed: %v", out.CrashAt, err)
 		return
@@ -428,13 +703,19 @@ func vpCWRunCut(net *vpKNet, steps []vpCWStep, cut *vpCWCut) (out vpCWOutcome) {
 				run2.snapOf[i] = nil
 				delete(run2.snapOf, i)
 			} else {
-				if steps[i].Kind == "custodian" {
+				if vpCWIsCons(steps[i].Kind) {
 					run2.lastCons = run.prepare(i)[0].PayloadHash()
+				}
+				if steps[i].Kind == "accept" {
+					if chain := k2.Node.getOrCreateChain(s.NodeId); chain == nil || chain.State == nil || chain.State.CacheRound.Number != 1 {
+						out.Err22 = fmt.Errorf("after crash at %s and re-delivery the accept snapshot %s is stored but the new chain has no round 1 head", out.CrashAt, s.Hash)
+						return
+					}
 				}
 				continue
 			}
 		}
-		if steps[i].Kind == "custodian" {
+		if vpCWIsCons(steps[i].Kind) {
 			// rebuild against the restarted node's recorded last consensus operation
 			delete(run2.txOf, i)
 			last, _ := k2.Node.persistStore.ReadLastConsensusSnapshot()
@@ -449,6 +730,8 @@ func vpCWRunCut(net *vpKNet, steps []vpCWStep, cut *vpCWCut) (out vpCWOutcome) {
 			out.Err22 = fmt.Errorf("continuing the workload after crash at %s failed at step %d (%s): %v %v", out.CrashAt, i, steps[i].Kind, eerr, p)
 			return
 		}
+		out.Continued++
+		account(run2, i)
 	}
 	if err := vpCWConsistency(k2, nil); err != nil {
 		out.Err22 = fmt.Errorf("after continuing past crash at %s: %v", out.CrashAt, err)
@@ -459,34 +742,59 @@ func vpCWRunCut(net *vpKNet, steps []vpCWStep, cut *vpCWCut) (out vpCWOutcome) {
 func vpCWDescribe(steps []vpCWStep) []string {
 	var d []string
 	for i, s := range steps {
-		d = append(d, fmt.Sprintf("%d:%s@chain%d", i, s.Kind, s.Chain))
+		x := fmt.Sprintf("%d:%s@chain%d", i, s.Kind, s.Chain)
+		if vpCWIsCons(s.Kind) {
+			x = fmt.Sprintf("%d:%s", i, s.Kind)
+		}
+		if s.Jump > 0 {
+			x += fmt.Sprintf("+%dh", s.Jump)
+		}
+		d = append(d, x)
+	}
+	if vpCWSelfOf(steps) != 0 {
+		d = append(d, fmt.Sprintf("self=node%d", vpCWSelfOf(steps)))
 	}
 	return d
 }
 
+// vpCWPlan is what the fault-free run of a workload tells about its calls.
+type vpCWPlan struct {
+	Calls     int
+	Log       []string // name of call k at Log[k-1]
+	StepOf    []int    // step of call k at StepOf[k-1]
+	Windows   [][2]int // per consensus-class step: k of its WriteSnapshot, k of its WriteConsensusSnapshot
+	ConsSteps []int    // the step of each window
+	F8        [2]int   // accept step: k of StartNewRound(round 0) and of StartNewRound(round 1); zero without an accept step
+	Member    []int    // calls of the pledge, accept and remove steps (the membership write paths)
+	Accept    [2]int   // first and last call of the accept step
+	Chains    map[int]int
+}
 
-// vpCWConsWindow returns the call numbers (k of WriteSnapshot, k of
-// WriteConsensusSnapshot) of every consensus-class step in the fault-free run.
 var vpCWLastLog []string
 
-func vpCWConsWindows(net *vpKNet, steps []vpCWStep) (calls int, windows [][2]int, err error) {
+func vpCWPlanOf(net *vpKNet, steps []vpCWStep) (*vpCWPlan, error) {
 	dir := vpKTempDir("cwb")
 	defer os.RemoveAll(dir)
-	k, err := vpKStart(net, dir, 0, nil)
+	k, err := vpKStart(net, dir, vpCWSelfOf(steps), nil)
 	if err != nil {
-		return 0, nil, err
+		return nil, err
 	}
 	defer k.Stop()
 	run := vpCWNew(k, steps)
 	k.Proxy.K = 0
 	k.Proxy.Log = nil
+	plan := &vpCWPlan{Chains: map[int]int{}}
 	for i := range steps {
 		from := k.Proxy.K
 		var eerr error
 		if p := vpKCatch(func() { eerr = run.exec(i) }); p != nil || eerr != nil {
-			return 0, nil, fmt.Errorf("fault-free run failed at step %d (%s): %v %v", i, steps[i].Kind, eerr, p)
+			return nil, fmt.Errorf("fault-free run failed at step %d (%s): %v %v", i, steps[i].Kind, eerr, p)
 		}
-		if steps[i].Kind == "custodian" {
+		plan.Chains[run.chainOf[i]]++
+		for j := from; j < k.Proxy.K; j++ {
+			plan.StepOf = append(plan.StepOf, i)
+		}
+		if vpCWIsCons(steps[i].Kind) {
 			w := [2]int{}
 			for j := from; j < k.Proxy.K; j++ {
 				switch k.Proxy.Log[j] {
@@ -496,11 +804,49 @@ func vpCWConsWindows(net *vpKNet, steps []vpCWStep) (calls int, windows [][2]int
 					w[1] = j + 1
 				}
 			}
-			windows = append(windows, w)
+			if w[0] == 0 {
+				return nil, fmt.Errorf("consensus step %d (%s) without snapshot write in the call log %v", i, steps[i].Kind, k.Proxy.Log[from:k.Proxy.K])
+			}
+			if w[1] == 0 {
+				// no marker write at all: nothing to aim at, the oracles decide
+				w[1] = k.Proxy.K
+			}
+			plan.Windows = append(plan.Windows, w)
+			plan.ConsSteps = append(plan.ConsSteps, i)
+		}
+		if steps[i].Kind == "pledge" || steps[i].Kind == "accept" || steps[i].Kind == "remove" {
+			for j := from; j < k.Proxy.K; j++ {
+				plan.Member = append(plan.Member, j+1)
+			}
+		}
+		if steps[i].Kind == "accept" {
+			plan.Accept = [2]int{from + 1, k.Proxy.K}
+			n := 0
+			for j := from; j < k.Proxy.K; j++ {
+				if k.Proxy.Log[j] == "StartNewRound" && n < 2 {
+					plan.F8[n] = j + 1
+					n++
+				}
+			}
+			if n != 2 {
+				return nil, fmt.Errorf("accept step %d: expected two round starts, call log %v", i, k.Proxy.Log[from:k.Proxy.K])
+			}
 		}
 	}
-	vpCWLastLog = append([]string{}, k.Proxy.Log...)
-	return k.Proxy.K, windows, nil
+	plan.Calls = k.Proxy.K
+	plan.Log = append([]string{}, k.Proxy.Log...)
+	vpCWLastLog = plan.Log
+	return plan, nil
+}
+
+// vpCWConsWindows returns the call numbers (k of WriteSnapshot, k of
+// WriteConsensusSnapshot) of every consensus-class step in the fault-free run.
+func vpCWConsWindows(net *vpKNet, steps []vpCWStep) (calls int, windows [][2]int, err error) {
+	plan, err := vpCWPlanOf(net, steps)
+	if err != nil {
+		return 0, nil, err
+	}
+	return plan.Calls, plan.Windows, nil
 }
 
 // inKnownWindow says whether a nested (other chain finalizes, then crash) cut
@@ -518,7 +864,25 @@ func vpCWInKnownWindow(windows [][2]int, cut *vpCWCut) bool {
 	return false
 }
 
-func vpCWCuts(t *rapid.T, calls int, n int) []*vpCWCut {
+// vpCWInF8 says whether a cut falls into known finding C22-F8: the accept path
+// has created the round-0 head of the new chain (first StartNewRound returned)
+// and has not yet created the round-1 head (second StartNewRound not returned).
+func vpCWInF8(plan *vpCWPlan, cut *vpCWCut) bool {
+	a, b := plan.F8[0], plan.F8[1]
+	if a == 0 {
+		return false
+	}
+	if cut.K == a {
+		return cut.Phase == "after"
+	}
+	if cut.K == b {
+		return cut.Phase == "before"
+	}
+	return cut.K > a && cut.K < b
+}
+
+func vpCWCuts(t *rapid.T, plan *vpCWPlan, steps []vpCWStep, n int) []*vpCWCut {
+	calls := plan.Calls
 	var cuts []*vpCWCut
 	if n <= 0 { // every boundary, plain and nested
 		for k := 1; k <= calls; k++ {
@@ -529,77 +893,229 @@ func vpCWCuts(t *rapid.T, calls int, n int) []*vpCWCut {
 		}
 		return cuts
 	}
-	// stratify by call name so that rare boundaries (round transitions, the
-	// consensus marker) are cut as often as the frequent ones
+	draw := func(k int) *vpCWCut {
+		c := &vpCWCut{K: k, Phase: rapid.SampledFrom([]string{"before", "after"}).Draw(t, "cut_phase"),
+			DropTmp: rapid.IntRange(0, 3).Draw(t, "drop_cache") == 0}
+		if c.Phase == "before" {
+			c.Nested = rapid.IntRange(0, 2).Draw(t, "nested") == 0
+		}
+		return c
+	}
+	// (1) landmarks of the membership write paths: for the accept step the
+	// boundary before the first and after the second round start (what lies
+	// between is known finding C22-F8) and both sides of the consensus marker;
+	// for pledge and remove both sides of the snapshot write and of the marker,
+	// for pledge also the node-operation lock. Every second landmark, starting
+	// at a drawn offset, is cut; adjacent landmarks share their class, so each
+	// workload cuts every landmark class of the operations it contains.
+	var marks []*vpCWCut
+	for wi, st := range plan.ConsSteps {
+		w := plan.Windows[wi]
+		switch steps[st].Kind {
+		case "accept":
+			marks = append(marks, &vpCWCut{K: plan.F8[0], Phase: "before"}, &vpCWCut{K: plan.F8[1], Phase: "after"},
+				&vpCWCut{K: w[1], Phase: "before"}, &vpCWCut{K: w[1], Phase: "after"})
+		case "pledge", "remove":
+			marks = append(marks, &vpCWCut{K: w[0], Phase: "before"}, &vpCWCut{K: w[0], Phase: "after"},
+				&vpCWCut{K: w[1], Phase: "before"}, &vpCWCut{K: w[1], Phase: "after"})
+			for k, at := range plan.StepOf {
+				if at == st && plan.Log[k] == "AddNodeOperation" {
+					marks = append(marks, &vpCWCut{K: k + 1, Phase: "after"}, &vpCWCut{K: k + 1, Phase: "before"})
+				}
+			}
+		}
+	}
+	if len(marks) > 0 {
+		for i := rapid.IntRange(0, 1).Draw(t, "landmark_offset"); i < len(marks) && len(cuts) < n-2; i += 2 {
+			c := marks[i]
+			c.DropTmp = rapid.IntRange(0, 3).Draw(t, "drop_cache") == 0
+			if c.Phase == "before" && plan.Log[c.K-1] != "WriteSnapshot" {
+				c.Nested = rapid.IntRange(0, 2).Draw(t, "nested") == 0
+			}
+			cuts = append(cuts, c)
+		}
+	}
+	// (2) stratified by step, so that late phases of the workload (after the
+	// acceptance, after the removal) are cut as often as the early ones
+	rest := n - len(cuts)
+	bySteps := map[int][]int{}
+	for k, st := range plan.StepOf {
+		bySteps[st] = append(bySteps[st], k+1)
+	}
+	for i := 0; i < rest/2; i++ {
+		ks := bySteps[plan.StepOf[len(plan.StepOf)-1]-rapid.IntRange(0, plan.StepOf[len(plan.StepOf)-1]).Draw(t, "cut_step_from_end")]
+		if len(ks) == 0 {
+			continue
+		}
+		cuts = append(cuts, draw(ks[rapid.IntRange(0, len(ks)-1).Draw(t, "cut_k")]))
+	}
+	// (3) stratified by call name, so that rare boundaries (round transitions,
+	// the consensus marker) are cut as often as the frequent ones
 	byName := map[string][]int{}
 	var names []string
-	for i, n := range vpCWLastLog {
-		if i >= calls {
-			break
-		}
+	for i, n := range plan.Log {
 		if byName[n] == nil {
 			names = append(names, n)
 		}
 		byName[n] = append(byName[n], i+1)
 	}
-	for i := 0; i < n; i++ {
+	for i := 0; len(cuts) < n; i++ {
 		name := names[(i+rapid.IntRange(0, len(names)-1).Draw(t, "cut_name"))%len(names)]
 		ks := byName[name]
-		c := &vpCWCut{K: ks[rapid.IntRange(0, len(ks)-1).Draw(t, "cut_k")], Phase: rapid.SampledFrom([]string{"before", "after"}).Draw(t, "cut_phase"),
-			DropTmp: rapid.IntRange(0, 3).Draw(t, "drop_cache") == 0}
-		if c.Phase == "before" {
-			c.Nested = rapid.IntRange(0, 2).Draw(t, "nested") == 0
-		}
-		cuts = append(cuts, c)
+		cuts = append(cuts, draw(ks[rapid.IntRange(0, len(ks)-1).Draw(t, "cut_k")]))
 	}
 	return cuts
 }
 
+// vpCWClasses names what a finished cut evaluation covered.
+func vpCWClasses(plan *vpCWPlan, steps []vpCWStep, cut *vpCWCut, out *vpCWOutcome) []string {
+	cl := []string{}
+	for _, n := range []string{"WriteSnapshot", "StartNewRound", "WriteTransaction", "LockUTXOs", "WriteConsensusSnapshot", "LockDepositInput", "LockGhostKeys", "CacheStoreTransaction", "UpdateEmptyHeadRound", "AddNodeOperation"} {
+		if strings.HasPrefix(out.CrashAt, n+"/") {
+			cl = append(cl, "cut-"+n)
+		}
+	}
+	if cut.Nested {
+		cl = append(cl, "nested")
+	}
+	if cut.DropTmp {
+		cl = append(cl, "drop-cache")
+	}
+	if !out.Crashed {
+		return cl
+	}
+	for _, kind := range []string{"pledge", "accept", "remove"} {
+		if out.Kinds[kind] > 0 {
+			cl = append(cl, kind) // the membership operation was finalized before the cut
+		}
+		if out.CrashKind == kind {
+			cl = append(cl, "cut-in-"+kind+"-path")
+			if n := plan.Log[cut.K-1]; n == "StartNewRound" || n == "WriteSnapshot" || n == "WriteConsensusSnapshot" {
+				cl = append(cl, "cut-in-"+kind+"-path-"+n)
+			}
+		}
+	}
+	if out.Kinds["pledge"] > 0 && out.Kinds["accept"] == 0 && out.CrashKind != "accept" {
+		cl = append(cl, "cut-while-pledging")
+	}
+	if out.JoinSnaps > 0 {
+		cl = append(cl, "snapshot-on-joined-chain") // before the cut or while continuing on the restarted node
+	}
+	if out.JoinSigned > 0 {
+		cl = append(cl, "joined-node-cosigned")
+	}
+	if vpCWSelfOf(steps) == vpCWJoin {
+		cl = append(cl, "self-is-joining-node")
+	}
+	return cl
+}
+
+var vpC22F8Witness = []vpCWStep{
+	{Kind: "deposit", Chain: 1, Asset: 1, Owner: 0, Dt: 1e8},
+	{Kind: "fund", Chain: 2, Owner: 1, Dt: 1e8},
+	{Kind: "pledge", Prev: 1, Dt: 1e8},
+	{Kind: "deposit", Chain: 3, Asset: 1, Owner: 2, Dt: 1e8},
+	{Kind: "accept", Prev: 2, Dt: 1e8},
+	{Kind: "deposit", Chain: 4, Asset: 1, Owner: 3, Dt: 1e8},
+}
+
+// Known finding C22-F8: finalizeNodeAcceptSnapshot creates the round-0 head of
+// the new chain, writes the accept snapshot and creates the round-1 head in
+// three separate store transactions; a stop between the first and the third
+// leaves a head at round 0, which chain.loadState cannot load (it asks for the
+// final round number head-1): every later start-up panics.
+func TestVP_C22_known_F8(t *testing.T) {
+	if kit.Replaying() {
+		return
+	}
+	c := kit.New(t, "C22", "deterministic witness of known finding C22-F8 (every cut of the round-0 window of one pledge/accept workload) and of its two delimiting boundaries")
+	net := vpCWNewNet("c22w")
+	plan, err := vpCWPlanOf(net, vpC22F8Witness)
+	if err != nil || plan.F8[0] == 0 {
+		t.Fatalf("witness workload: %v %+v", err, plan)
+	}
+	a, b := plan.F8[0], plan.F8[1]
+	window := []*vpCWCut{{K: a, Phase: "after"}}
+	for k := a + 1; k < b; k++ {
+		window = append(window, &vpCWCut{K: k, Phase: "before"}, &vpCWCut{K: k, Phase: "after"})
+	}
+	window = append(window, &vpCWCut{K: b, Phase: "before"}, &vpCWCut{K: b, Phase: "before", Nested: true})
+	failing := []string{}
+	for _, cut := range window {
+		if !vpCWInF8(plan, cut) {
+			t.Fatalf("window predicate disagrees with the witness enumeration at %+v", *cut)
+		}
+		out := vpCWRunCut(net, vpC22F8Witness, cut)
+		c.Case(fmt.Sprint("witness", *cut), true, "witness-window")
+		c.Sample(map[string]any{"workload": vpCWDescribe(vpC22F8Witness), "cut": fmt.Sprintf("%+v", *cut), "crash_at": out.CrashAt, "calls": plan.Log[plan.Accept[0]-1 : plan.Accept[1]], "result": fmt.Sprint(out.Err22)})
+		if out.Err22 != nil {
+			if !strings.Contains(out.Err22.Error(), "restart after crash") {
+				t.Fatalf("witness cut %+v failed differently: %v", *cut, out.Err22)
+			}
+			failing = append(failing, fmt.Sprintf("%s: %v", out.CrashAt, out.Err22))
+		}
+	}
+	if len(failing) > 0 {
+		kit.ReportKnown(t, "C22", "C22-F8", fmt.Sprintf("%d of %d cuts between the two round starts of finalizeNodeAcceptSnapshot leave a store on which SetupNode panics; first: %s", len(failing), len(window), failing[0]))
+	}
+	// the boundaries just outside the window must restart and continue
+	for _, cut := range []*vpCWCut{{K: a, Phase: "before"}, {K: a, Phase: "before", Nested: true}, {K: b, Phase: "after"}, {K: plan.Accept[1], Phase: "before"}, {K: plan.Accept[1], Phase: "after"}} {
+		if vpCWInF8(plan, cut) {
+			t.Fatalf("window predicate covers the delimiting boundary %+v", *cut)
+		}
+		out := vpCWRunCut(net, vpC22F8Witness, cut)
+		c.Case(fmt.Sprint("boundary", *cut), true, "witness-boundary")
+		if out.Err22 != nil {
+			t.Fatalf("crash at the boundary of the round-0 window %+v: %v", *cut, out.Err22)
+		}
+	}
+}
+
 func TestVP_C22_crash_points(t *testing.T) {
-	c := kit.New(t, "C22", "rapid: multi-chain workloads (6..16 steps over 7 chains: deposits of two assets, batches, transfers, round transitions with external references, custodian updates on the elected chain) driven through the real node's finalization path; the store proxy numbers every mutating call (admission cache writes, key/input locks, body writes, round transitions, snapshot writes, consensus marker); a cut = (call k, before|after, optionally another chain finalizing a snapshot at that boundary first, optionally losing the non-synced cache DB); quick samples 8 cuts per workload, thorough enumerates every boundary; after the cut the process state is discarded, Badger reopened, SetupNode run; oracle: start-up succeeds, graph validator reports no invalid entry, every stored snapshot's transactions keep body/finalization record/outputs, topology positions are a bijection and equal those handed out before the crash, the restarted counter is >= the stored maximum, the workload (in-flight snapshot re-delivered) continues to the end; non-trivial = cut strictly inside the workload with >=1 finalized snapshot before it and >=2 chains touched; distinct by (workload, cut)")
-	c.Require("nontrivial", "cut-WriteSnapshot", "cut-StartNewRound", "cut-WriteTransaction", "cut-LockUTXOs", "cut-WriteConsensusSnapshot", "nested", "drop-cache")
-	perWorkload := 8
-	kit.SetChecks(kit.N(8, 72))
+	c := kit.New(t, "C22", "rapid: multi-chain workloads over a generated 7-node network driven through the real node's finalization path: deposits of two assets, batches, transfers, round transitions with external references, custodian updates on the elected chain, and in most workloads the membership life cycle (funding deposit, pledge of an 8th node on the elected chain, its acceptance as round 0 of the new chain >= 12h later in the accept window, steps after the node matured incl. snapshots on the new chain and co-signing by the new node, removal of the oldest node in the next window); the store proxy numbers every mutating call (admission cache writes, key/input locks, body writes, node-operation lock, round starts, snapshot writes, consensus marker); a cut = (call k, before|after, optionally another chain finalizing a snapshot at that boundary first, optionally losing the non-synced cache DB); quick samples 10 cuts per workload (every second landmark boundary of the pledge/accept/remove write paths when present - round starts, snapshot write, consensus marker, node-operation lock -, the rest stratified half by step, half by call name), thorough enumerates every boundary; after the cut the process state is discarded, Badger reopened, SetupNode run; oracle: start-up succeeds, graph validator reports no invalid entry, every stored snapshot's transactions keep body/finalization record/outputs, topology positions are a bijection and equal those handed out before the crash, the restarted counter is >= the stored maximum, the workload (in-flight snapshot re-delivered) continues to the end; cuts of known finding C22-F8 (between the two round starts of the accept path) are excluded by construction and counted; non-trivial = cut strictly inside the workload with >=1 finalized snapshot before it and >=2 chains touched; distinct by (workload, cut)")
+	c.Require("nontrivial", "cut-WriteSnapshot", "cut-StartNewRound", "cut-WriteTransaction", "cut-LockUTXOs", "cut-WriteConsensusSnapshot", "nested", "drop-cache",
+		"pledge", "accept", "cut-in-pledge-path", "cut-in-accept-path", "cut-in-accept-path-StartNewRound", "cut-in-accept-path-WriteConsensusSnapshot", "cut-in-pledge-path-WriteSnapshot", "cut-in-pledge-path-WriteConsensusSnapshot")
+	perWorkload := 10
+	kit.SetChecks(kit.N(12, 72))
 	if kit.Thorough() {
 		perWorkload = 0
 	}
-	net := vpKNewNet(7, "c22", 4)
+	net := vpCWNewNet("c22")
 	rapid.Check(t, func(t *rapid.T) {
 		steps := vpCWDraw(t, 7)
-		calls, windows, err := vpCWConsWindows(net, steps)
+		plan, err := vpCWPlanOf(net, steps)
 		if err != nil {
 			t.Fatalf("%v\nworkload %v", err, vpCWDescribe(steps))
 		}
-		for _, cut := range vpCWCuts(t, calls, perWorkload) {
+		for _, cut := range vpCWCuts(t, plan, steps, perWorkload) {
+			if vpCWInF8(plan, cut) && kit.Known("C22-F8") {
+				c.Class("excluded-known")
+				continue
+			}
 			out := vpCWRunCut(net, steps, cut)
 			if out.Err22 != nil {
-				t.Fatalf("%v\ncut %+v\nworkload %v", out.Err22, *cut, vpCWDescribe(steps))
+				t.Fatalf("%v\ncut %+v\nworkload %v\ncalls of the crashed step %v", out.Err22, *cut, vpCWDescribe(steps), vpCWStepCalls(plan, out.CrashStep))
 			}
-			name := "?"
-			if out.Crashed {
-				fmt.Sscanf(out.CrashAt, "%s", &name)
-			}
-			cl := []string{}
 			nt := out.Crashed && out.Finalized >= 1 && out.Chains >= 2
+			cl := vpCWClasses(plan, steps, cut, &out)
 			if nt {
 				cl = append(cl, "nontrivial")
 			}
-			for _, n := range []string{"WriteSnapshot", "StartNewRound", "WriteTransaction", "LockUTXOs", "WriteConsensusSnapshot", "LockDepositInput", "LockGhostKeys", "CacheStoreTransaction", "UpdateEmptyHeadRound"} {
-				if len(out.CrashAt) > len(n) && out.CrashAt[:len(n)+1] == n+"/" {
-					cl = append(cl, "cut-"+n)
-				}
-			}
-			if cut.Nested {
-				cl = append(cl, "nested")
-			}
-			if cut.DropTmp {
-				cl = append(cl, "drop-cache")
-			}
-			if vpCWInKnownWindow(windows, cut) {
+			if vpCWInKnownWindow(plan.Windows, cut) {
 				cl = append(cl, "in-C21-F5-window")
 			}
 			c.Case(fmt.Sprint(vpCWDescribe(steps), *cut), nt, cl...)
-			c.Sample(map[string]any{"workload": vpCWDescribe(steps), "cut": fmt.Sprintf("%+v", *cut), "crash_at": out.CrashAt, "finalized_before": out.Finalized, "calls": calls})
+			c.Sample(map[string]any{"workload": vpCWDescribe(steps), "cut": fmt.Sprintf("%+v", *cut), "crash_at": out.CrashAt, "finalized_before": out.Finalized, "calls": plan.Calls, "continued": out.Continued})
 		}
 	})
+}
+
+func vpCWStepCalls(plan *vpCWPlan, step int) []string {
+	var l []string
+	for k, s := range plan.StepOf {
+		if s == step {
+			l = append(l, fmt.Sprintf("%d:%s", k+1, plan.Log[k]))
+		}
+	}
+	return l
 }
